@@ -165,6 +165,8 @@ def int_positions(tg):
     reg_num = tg.consts["REGISTER_NUM"]["val"]
     nreg_vars = (reg_num - tg.reserved) // 2
     ps = sorted({0, 1, 2, nreg_vars - 2, nreg_vars - 1, nreg_vars, nreg_vars + 1, nreg_vars + 2})
+    if tg.ctx.tier == "thorough":
+        ps = list(range(0, nreg_vars + 4))      # every position up to three beyond the register file
     if tg.b == "rv64":
         ps = [p for p in ps if p < nreg_vars] + [3, 4, 5]      # no spills: the capacity assertion fires beyond the register file
     return sorted({p for p in ps if p >= 0})
@@ -350,8 +352,18 @@ def rule_isel(b):
         IMM = tg.crate + "::config::Immediate" if b != "rv64" else None
         bad = []
         n = 0
+        imm_values = list(IMM_VALUES)
+        if ctx.tier == "thorough":
+            import random, os
+            rnd = random.Random(int(os.environ.get("VERIF_SEED", "0") or 0))
+            for sh in range(0, 64):
+                imm_values += [1 << sh if sh < 63 else -(1 << 63), (1 << sh) - 1, -(1 << sh)]
+            for hw in range(4):
+                imm_values += [0xFFFF << (16 * hw) if hw < 3 else -(1 << 48), 0x1234 << (16 * hw) if hw < 3 else 0x1234 << 47]
+            imm_values += [rnd.randrange(-(1 << 63), 1 << 63) for _ in range(64)]
+            imm_values = sorted({v for v in imm_values if -(1 << 63) <= v < (1 << 63)})
         for t in P:
-            for val in IMM_VALUES:
+            for val in imm_values:
                 imm = Adt(IMM, "Immediate", {"val": val}) if IMM else val
                 codes = fold_list(key, [t, imm], 2)
                 n += 1
